@@ -30,9 +30,13 @@
 (* is "diverge".  Both tests are exact (pigeon-hole: direct dictionaries    *)
 (* nest finitely, so an unbounded run must repeat a reference).             *)
 (*                                                                          *)
-(* The Dev_ switches (DESIGN 2.9) select "as the code is" (TRUE) or "as     *)
-(* repaired" (FALSE) for every confirmed deviation; s.cls names the class   *)
-(* of the bad outcome — it is the signature of the finding.                 *)
+(* The Dev_ switches (DESIGN 2.9) re-create, when TRUE, one confirmed       *)
+(* deviation each; s.cls names the class of the bad outcome — it is the     *)
+(* signature of the finding.  All nine deviations are repaired in lopdf     *)
+(* (fix: commits fa0a095 .. 6344b93), so "as the code is" = every switch    *)
+(* FALSE; TRUE is used to seed a repaired defect back into the model        *)
+(* (negative control MC_Queries_quick_cex, naming of regressions in         *)
+(* Trace_Queries).                                                          *)
 (*                                                                          *)
 (* Values (the harness uses the same JSON shape):                           *)
 (*   [k |-> kind, n |-> Int, s |-> STRING, e |-> Seq(Val), d |-> Seq(<<key, Val>>)] *)
